@@ -2,6 +2,7 @@ import JunoModel.Common.Proto
 import JunoModel.C20.Model
 import JunoModel.C20.Heap
 import JunoModel.C20.Alias
+import JunoModel.C20.Poller
 /-!
 Line-protocol driver for the C20 model (`lake build c20drv`). All numbers are decimal.
 
@@ -14,6 +15,8 @@ Line-protocol driver for the C20 model (`lake build c20drv`). All numbers are de
   snapn <b>                                          -> <length> # <numbers oldest first>
   tx <b> <hash>      (on SnapshotForBlock(b))        -> notfound | <hash>.<tag>
   rc <b> <hash>                                      -> notfound | <hash>.<tag>.<events>@<block>
+  etx <b> <hash>     (every entry of SnapshotForBlock(b), newest first: (*PreConfirmed).TransactionByHash / ReceiptByHash)
+                                                     -> - | <num>:<notfound|hash.tag.kind@index>/<notfound|receipt> ...
   univ <addrs> <slots> <classhashes>                 -> ok          (comma lists; reads are answered over this universe)
   base <n> <table>                                   -> ok          (reader returned by StateAtBlockNumber(n))
   unbase <n>                                         -> ok          (StateAtBlockNumber(n) fails from now on)
@@ -21,6 +24,16 @@ Line-protocol driver for the C20 model (`lake build c20drv`). All numbers are de
   validate <B|D|N> <ntx> <malformation>              -> <valid|invalid> <ok:<n>|adapterr|panics>   (Envelope.Validate; the adapter on the same envelope)
   state <b> <block>  (view SnapshotForBlock(b), PreConfirmedStateAt(block))      -> notfound | nobase | <reads>
   statebi <b> <block> <index>                        -> notfound | broken | oob | nobase | <reads>
+
+  ptick <height> <highest|-> <cfails|-> <cdefs> <Lnum> <K> <ident> <ver> <txs> [<n> <K> <ident> <ver> <txs>]*
+       one tick of the real Poller (Poller.lean `tick`) in the given environment: canonical height, cached highest header,
+       Class(h) fails for h in cfails and answers cdefs[h] otherwise, the latest poll answers update K (B|D|N, F = error) for
+       block Lnum, the by-number poll of n answers the listed update (absent n = error)
+                                                     -> <ok|err:height|err:latest|err:bynum|err:fetch|err:apply:<class>> | <calls> #pub <entries>
+       calls: lt(ident,txCount) bn(n,ident,txCount) fetch(h,h,..)|fetchfail, joined by ' ; '; #pub: feed sends, joined by ' | '
+  newchain <n,n,..|->                                -> err | ok <length> <numbers oldest first>   (preconfirmed.NewChain)
+  emptydiff <num> <hash|->                           -> err | <diff>   (makeStateDiffForEmptyBlock; hash = BlockHeaderHashByNumber(num-10))
+  ppre <height> <highest|->                          -> notip | tip(ident,txCount)   (the tick up to the latest poll, which fails)
 
   classes: `-` or `h:d,h:d`     txs: `-` or `tx;tx`, tx = hash/tag/bad/rhash/rtag/events/diff/kind/reverted
   diff: `-` or sections joined by `+`: s=a:k:v,..  n=a:v,..  d=a:c  r=a:c  c1=h:c  m=h:c  c0=h,h
@@ -227,6 +240,55 @@ def doApply (s : DState) (u : Update) (num baseTx oldest cls : String) : DState 
       else showOutcome out)
   | _, _, _, _ => (s, "bad-op")
 
+
+def identOut (s : String) : String := if s.isEmpty then "_" else s
+
+def parseUpd? (k ident ver txs : String) : Option (Option Update) :=
+  match k with
+  | "F" => some none
+  | "N" => some (some .noChange)
+  | "D" => do let t ← parseTxs? txs; pure (some (.delta ident t))
+  | "B" => do let t ← parseTxs? txs; let v ← nat? ver; pure (some (.block ident (v != 0) t))
+  | _ => none
+
+/-- the by-number answers: groups of five words -/
+def parseByNum? : List String → Option (List (Nat × Option Update))
+  | [] => some []
+  | n :: k :: ident :: ver :: txs :: rest => do
+    let n ← nat? n
+    let u ← parseUpd? k ident ver txs
+    let more ← parseByNum? rest
+    pure ((n, u) :: more)
+  | _ => none
+
+def showEv : Ev → Option String
+  | .latest ident t => some s!"lt({identOut ident},{t})"
+  | .byNumber n ident t => some s!"bn({n},{identOut ident},{t})"
+  | .fetch hs ok => some (if ok then s!"fetch({",".intercalate ((hs.mergeSort (· ≤ ·)).map toString)})" else "fetchfail")
+  | .publish _ => none
+  | .wrote _ => none
+
+def showTickErr : Option TickErr → String
+  | none => "ok"
+  | some .height => "err:height"
+  | some .latest => "err:latest"
+  | some (.byNumber _) => "err:bynum"
+  | some (.fetch _) => "err:fetch"
+  | some (.apply _ e) => "err:apply:" ++ e.name
+
+/-- run one tick on the list model, replay the writer operations it performed on the pointer-level
+model, cross-check the two -/
+def doTick (s : DState) (i : TickIn) : DState × List Ev × Option TickErr × Bool :=
+  let (st', evs, err) := tick s.store i
+  let hs' := evs.foldl (fun h e => match e with | .wrote o => hstep h o | _ => h) s.hstore
+  let agree := match st', hs'.abs with
+    | none, none => true
+    | some a, some b => a.length == b.length && (a.nodes.take a.length).map showEntry == (b.nodes.take b.length).map showEntry
+    | _, _ => false
+  ({ s with store := st', hstore := hs' }, evs, err, agree)
+
+def optNat (s : String) : Option Nat := if s == "-" then none else nat? s
+
 def step (s : DState) (line : String) : DState × String :=
   match words line with
   | ["reset"] => ({ s with store := none, hstore := {}, bases := [] }, "ok")
@@ -274,6 +336,21 @@ def step (s : DState) (line : String) : DState × String :=
       (s, match receiptByHash (snapshotFor s.store b) h with
           | none => "notfound"
           | some (r, n) => s!"{r.txHash}.{r.tag}.{r.events}.{if r.reverted then 1 else 0}@{n}")
+    | _, _ => (s, "bad-op")
+  | ["etx", b, h] =>
+    -- per-entry lookups on every entry (newest first) of SnapshotForBlock(b)
+    match nat? b, nat? h with
+    | some b, some h =>
+      let es := (snapshotFor s.store b).newestFirst
+      let one (e : PreConf) : String :=
+        let t := match e.txByHash h with
+          | none => "notfound"
+          | some (t, i) => s!"{t.hash}.{t.tag}.{t.kind}@{i}"
+        let r := match e.receiptByHash h with
+          | none => "notfound"
+          | some r => s!"{r.txHash}.{r.tag}.{r.events}.{if r.reverted then 1 else 0}"
+        s!"{e.number}:{t}/{r}"
+      (s, if es.isEmpty then "-" else " ".intercalate (es.map one))
     | _, _ => (s, "bad-op")
   | ["univ", a, k, c] =>
     match natList? a ",", natList? k ",", natList? c "," with
@@ -328,6 +405,46 @@ def step (s : DState) (line : String) : DState × String :=
           | .error .noBase => "nobase"
           | .ok p => showReads s p)
     | _, _, _ => (s, "bad-op")
+  | "ptick" :: height :: highest :: cfails :: cdefs :: lnum :: lk :: lident :: lver :: ltxs :: rest =>
+    match nat? height, natList? cfails ",", pairs? cdefs, nat? lnum, parseUpd? lk lident lver ltxs, parseByNum? rest with
+    | some ht, some fails, some defs, some ln, some lu, some bn =>
+      let src : Source :=
+        { latest := lu.map fun u => (u, ln)
+          byNumber := fun n => (bn.find? (fun p => p.1 == n)).bind (·.2)
+          classDef := fun h => if fails.contains h then none else AMap.get defs h }
+      let (s', evs, err, agree) := doTick s { height := some ht, highest := optNat highest, src := src }
+      let calls := " ; ".intercalate (evs.filterMap showEv)
+      let pubs := " | ".intercalate (evs.filterMap fun e => match e with | .publish p => some (showEntry p) | _ => none)
+      (s', if agree then s!"{showTickErr err} | {calls} #pub {pubs}" else "HEAP-MISMATCH")
+    | _, _, _, _, _, _ => (s, "bad-op")
+  | ["newchain", nums] =>
+    -- NewChain(entries...) with entries numbered `nums` (oldest first)
+    match natList? nums "," with
+    | some ns =>
+      let es : List PreConf := ns.map fun n =>
+        { number := n, ident := "", txCount := 0, eventCount := 0, txs := [], receipts := [], txDiffs := [], diff := {} }
+      (s, match newChain es with
+          | none => "err"
+          | some r => s!"ok {r.length} {",".intercalate (r.oldestFirst.map fun e => toString e.number)}")
+    | none => (s, "bad-op")
+  | ["emptydiff", num, hash] =>
+    -- makeStateDiffForEmptyBlock(bc, num) where BlockHeaderHashByNumber(num-10) answers `hash` (`-`: fails)
+    match nat? num with
+    | some n =>
+      (s, match emptyBlockDiff (fun _ => optNat hash) n with
+          | none => "err"
+          | some d => showDiff d)
+    | none => (s, "bad-op")
+  | ["ppre", height, highest] =>
+    match nat? height with
+    | some ht =>
+      let src : Source := { latest := none, byNumber := fun _ => none, classDef := fun _ => none }
+      let (s', evs, _, agree) := doTick s { height := some ht, highest := optNat highest, src := src }
+      let out := match evs.filterMap showEv with
+        | [] => "notip"
+        | c :: _ => "tip" ++ (c.drop 2)
+      (s', if agree then out else "HEAP-MISMATCH")
+    | none => (s, "bad-op")
   | _ => (s, "bad-op")
 
 end C20Drv
